@@ -308,7 +308,13 @@ def _key_badkey(target, k, kctx):
     if base in kctx["control_old"]:
         return "C20/control-parameter-not-carried"
     if base in kctx["table_new"] and base not in kctx["nameset"]:
-        return "C20/table-names-parameter-not-in-current-model"
+        # keyed by the entry and the parameter: another entry that falls out of step with its model is a new violation
+        idx = base[len(base.rstrip("0123456789")):]
+        if target == "unified_power_Rg" and idx in ("0", "7", "8", "9", "10") and base.rstrip("0123456789") in ("rg", "power", "G", "B"):
+            return "C20/table-names-parameter-not-in-current-model/unified_power_Rg/levels-0-and-7-to-10"
+        if target == "spherical_sld" and idx == "11":
+            return "C20/table-names-parameter-not-in-current-model/spherical_sld/index-11"
+        return "C20/table-names-parameter-not-in-current-model/%s/%s" % (target, base)
     return "C20/badkey/%s/%s" % (target, base.rstrip("0123456789"))
 
 
